@@ -96,6 +96,63 @@ def op(kind, *args):
     return kind + " " + " ".join(H(a) for a in args)
 
 
+ACCEPTS = ["text/html", "text/html,application/xhtml+xml,application/xml;q=0.9,*/*;q=0.8", "application/json", "", "*/*",
+           "application/json, text/html;q=0.1", "TEXT/HTML"]
+ROLE_PATH = "/v1/getRoleRequestingCert"
+
+
+def form(pairs):
+    from urllib.parse import quote
+    return "&".join("%s=%s" % (k, quote(v, safe="")) for k, v in pairs)
+
+
+def rolecert(payload, accept, cookie="autoadmin", field="target_netblock"):
+    """error path that echoes request input: parseRoleCertGenParams answers
+    `invalid netblock <value>` through writeFailureResponse's plain-text fallback"""
+    pairs = [("identity", "role1"), ("requestor_netblock", "127.0.0.1/32"), ("target_netblock", "10.0.0.0/8")]
+    pairs = [(k, payload if k == field else v) for k, v in pairs]
+    return op("req", "POST", ROLE_PATH, "", form(pairs), accept, cookie)
+
+
+def echo_corpus():
+    img = "<img src=x on%s=alert(1)>" % CAN
+    ops = [rolecert("<%s>" % CAN, a) for a in ACCEPTS]
+    ops += [rolecert(img, "text/html"), rolecert(img, "text/html", cookie="admin"),
+            rolecert("<html><body><%s>" % CAN, "text/html"), rolecert("\n <!DOCTYPE html><%s>" % CAN, "text/html"),
+            rolecert("<%s>" % CAN, "text/html", field="requestor_netblock"),
+            rolecert("<%s>" % CAN, "text/html", field="identity"),
+            rolecert("<%s>" % CAN, "text/html", cookie="none"), rolecert("<%s>" % CAN, "text/html", cookie="full"),
+            # malformed form: ParseForm's error quotes the offending escape
+            op("req", "POST", ROLE_PATH, "", "identity=role1&a=%<" + CAN + ">", "text/html", "autoadmin"),
+            op("req", "POST", ROLE_PATH, "%<" + CAN + ">", "identity=role1", "text/html", "autoadmin"),
+            op("req", "GET", ROLE_PATH, "target_netblock=<%s>" % CAN, "", "text/html", "autoadmin"),
+            op("req", "POST", "/admin/newBoostrapOTP", "", form([("username", "<%s>" % CAN)]), "text/html", "admin"),
+            op("req", "POST", "/idp/oauth2/token", "", form([("grant_type", "<%s>" % CAN), ("code", "<%s>" % CAN)]), "text/html", "none"),
+            op("req", "POST", "/u2f/SignResponse", "", "{<%s>" % CAN, "text/html", "full")]
+    return ops
+
+
+def gen_echo(rng, n, routes, params):
+    """(a) the echoing error path with random payloads / Accept headers; (b) a sweep: any service
+    route, GET or POST, any session, every form parameter the code reads anywhere set to a payload"""
+    ops = []
+    for i in range(n):
+        p = rand_payload(rng)[-400:]
+        if i % 2 == 0 or not routes:
+            ops.append(rolecert(p, rng.choice(ACCEPTS), cookie=rng.choice(["autoadmin", "autoadmin", "admin"]),
+                                field=rng.choice(["target_netblock"] * 4 + ["requestor_netblock", "identity"])))
+        else:
+            path = rng.choice(routes)
+            if path.endswith("/") and rng.random() < 0.3:
+                path += "".join(ch for ch in p if ch.isalnum() or ch in "<>\"'")[:40].replace(" ", "")
+            names = [k for k in params if rng.random() < 0.6]
+            body = form([(k, p) for k in names])
+            method = rng.choice(["GET", "POST"])
+            ops.append(op("req", method, path.replace(" ", ""), body if method == "GET" else "", body if method == "POST" else "",
+                          rng.choice(ACCEPTS), rng.choice(["none", "bad", "pw", "full", "admin", "autoadmin"])))
+    return ops
+
+
 def corpus():
     """fixed ops, run first on every tier: the known failing input through every page that carries
     the field, then one op of every kind"""
@@ -183,17 +240,17 @@ def gen_ops(rng, n_pages, n_pure):
 
 
 def parse_page_line(line):
-    """-> list of responses: dict(status, html, ce, ca, refl, inputs=[(norm, seg, xval, xtok)], b64, err)"""
+    """-> list of responses: dict(status, html, ct, prefix, ce, ca, refl, inputs=[(norm, seg, xval, xtok)], b64, err)"""
     f = line.split()
     n = int(f[1])
     i = 2
     res = []
     for _ in range(n):
         assert f[i] == "R", line[:200]
-        r = {"status": int(f[i + 1]), "html": f[i + 2] == "1", "ce": int(f[i + 3]), "ca": int(f[i + 4]),
-             "refl": f[i + 5] == "1", "inputs": [], "b64": None, "err": None}
-        ni = int(f[i + 6])
-        i += 7
+        r = {"status": int(f[i + 1]), "html": f[i + 2] == "1", "ct": f[i + 3], "prefix": f[i + 4],
+             "ce": int(f[i + 5]), "ca": int(f[i + 6]), "refl": f[i + 7] == "1", "inputs": [], "b64": None, "err": None}
+        ni = int(f[i + 8])
+        i += 9
         if i < len(f) and f[i] == "E":
             r["err"] = c.unhexs(f[i + 1])
             i += 2
@@ -224,7 +281,10 @@ def run(ctx):
         n_pages, n_pure = 420, 900
     else:
         n_pages, n_pure = 6000, 30000
-    ops = corpus() + gen_ops(ctx.rng, n_pages, n_pure)
+    routes = sorted(set(r["path"] for r in facts.get("routes", []) if r.get("mux") == "service" and " " not in r["path"]))
+    params = facts.get("c18_form_params", [])
+    n_echo = 160 if ctx.quick() else 3000
+    ops = corpus() + echo_corpus() + gen_ops(ctx.rng, n_pages, n_pure) + gen_echo(ctx.rng, n_echo, routes, params)
     if ctx.replay:
         rp = json.load(open(ctx.replay))
         ops = [v["replay"]["op"] for v in rp.get("violations", []) if "op" in v.get("replay", {})] or corpus()
@@ -251,7 +311,8 @@ def run(ctx):
     # ------------------------------------------------------------------ pages
     jops, jown = [], []
     hist_kind, hist_status, refl_kind = {}, {}, {}
-    n_resp = n_html = n_inputs = 0
+    n_resp = n_html = n_inputs = n_plain_echo = 0
+    hist_ctype = {}
     nontrivial = set()
     build_ops, build_impl, tok_ops, tok_impl = [], [], [], []
     seen_build, seen_tok = set(), set()
@@ -272,20 +333,28 @@ def run(ctx):
         for ri, r in enumerate(resps):
             n_resp += 1
             if r["err"]:
-                if r["err"] == "closed":
+                if r["err"] == "closed" and k != "req":
                     c.add_violation(ctx, "panic op=%s" % k, "handler dropped the connection (panic) for op %s %r" % (k, [short(a) for a in args]),
                                     {"op": o, "response": ri})
                 hist_status["E:" + r["err"][:20]] = hist_status.get("E:" + r["err"][:20], 0) + 1
                 continue
             hist_status[str(r["status"])] = hist_status.get(str(r["status"]), 0) + 1
+            # Content-Type and body judged together: live canary markup in a body is only inert
+            # when the response is not a markup document
+            jops.append("resp %s %s %d %d" % (r["ct"], r["prefix"], r["ce"], r["ca"]))
+            jown.append(("canary", k, o, ri, args, (r["ct"], r["prefix"])))
+            mt = c.unhexs(r["ct"]).split(";")[0].strip().lower() or "(none)"
+            hist_ctype[mt] = hist_ctype.get(mt, 0) + 1
             if not r["html"]:
+                if r["ce"] or r["ca"]:
+                    n_plain_echo += 1
+                    nontrivial.add((k, o))
+                    refl_kind[k + ":non-html echo"] = refl_kind.get(k + ":non-html echo", 0) + 1
                 continue
             n_html += 1
             if r["refl"] or r["inputs"]:
                 refl_kind[k] = refl_kind.get(k, 0) + 1
                 nontrivial.add((k, o))
-            jops.append("canary %d %d" % (r["ce"], r["ca"]))
-            jown.append(("canary", k, o, ri, args, None))
             for (norm, seg, xval, xtok) in r["inputs"]:
                 n_inputs += 1
                 jops.append("input %s %s" % (norm, seg))
@@ -321,9 +390,11 @@ def run(ctx):
         if verdict == "ok":
             continue
         if what == "canary":
+            ct, prefix = extra
             c.add_violation(ctx, "canary op=%s" % k,
-                            "response %d of op %s %r contains canary-named markup (%s)" % (ri, k, [short(a) for a in args], verdict),
-                            {"op": o, "response": ri, "judge": verdict, "args": args})
+                            "response %d of op %s %r is served as %r and contains canary-named markup (%s); body starts %r" % (
+                                ri, k, [short(a) for a in args], c.unhexs(ct), verdict, short(c.unhex(prefix).decode("utf-8", "replace"), 120)),
+                            {"op": o, "response": ri, "judge": verdict, "args": args, "content_type": c.unhexs(ct)})
         elif what == "input":
             norm, seg, xval = extra
             c.add_violation(ctx, "input-breakout op=%s" % k,
@@ -340,7 +411,9 @@ def run(ctx):
     ctx.violations.sort(key=rank)
     ctx.coverage.update({
         "evaluations": len(ops), "responses": n_resp, "html_pages_tokenized": n_html, "login_destination_fields_judged": n_inputs,
-        "judged": len(jops), "pure_differential_ops": len(mops), "field_differential_distinct": len(build_ops),
+        "judged": len(jops), "content_types": hist_ctype,
+        "non_html_responses_with_live_canary_markup_in_body": n_plain_echo,
+        "echo_sites": facts.get("c18_echo_sites"), "content_type_sets": facts.get("c18_content_type_sets"), "pure_differential_ops": len(mops), "field_differential_distinct": len(build_ops),
         "distinct_nontrivial": len(nontrivial),
         "rule": "ops = fixed corpus (known failing destination first) + payload grammar placed in every request-controlled field of every offline-reachable HTML route; "
                 "non-trivial = distinct page ops whose HTML response reflected the payload (canary text found in text/attribute values) or carried the raw destination field",
